@@ -4,6 +4,7 @@
 
 use std::collections::HashSet;
 use std::fmt;
+use std::sync::Arc;
 
 use egg::{Id, Language};
 
@@ -51,6 +52,16 @@ impl<'a> Evaluator<'a> {
             return Ok(DataChunk::no_column(chunk.cardinality()));
         }
         list.iter().map(|id| self.next(*id).eval(chunk)).collect()
+    }
+
+    /// Evaluate the given expression as a condition. The NULL literal (it has a type of its own)
+    /// is a condition that holds for no row.
+    pub fn eval_condition(&self, chunk: &DataChunk) -> Result<Arc<BoolArray>, ConvertError> {
+        match self.eval(chunk)? {
+            ArrayImpl::Bool(a) => Ok(a),
+            ArrayImpl::Null(a) => Ok(Arc::new((0..a.len()).map(|_| None::<bool>).collect())),
+            _ => panic!("a condition should return bool"),
+        }
     }
 
     /// Evaluate the given expression as an array.
